@@ -43,6 +43,7 @@ from teaal.trans.footer import Footer
 from teaal.trans.header import Header
 from teaal.trans.partitioner import Partitioner
 from teaal.trans.utils import TransUtils
+from teaal import verif_hooks
 
 
 class HiFiber:
@@ -79,7 +80,13 @@ class HiFiber:
         Generate a single loop nest
         """
         # Generate for the given einsum
+        if verif_hooks.enabled():
+            verif_hooks.emit({"ev": "PreBegin", "einsum": i, "tensors": verif_hooks.tensors(
+                self.program), "tmp": self.trans_utils.count})
         self.program.add_einsum(i)
+        if verif_hooks.enabled():
+            verif_hooks.emit({"ev": "Begin", "einsum": i, "out": self.program.get_equation().get_output(
+            ).root_name(), "tensors": verif_hooks.tensors(self.program), "tmp": self.trans_utils.count})
 
         # Build metrics if there is hardware
         self.metrics: Optional[Metrics] = None
@@ -104,6 +111,9 @@ class HiFiber:
         stmt = self.__trans_nodes(nodes)[1]
 
         self.program.reset()
+        if verif_hooks.enabled():
+            verif_hooks.emit({"ev": "Reset", "einsum": i, "tensors": verif_hooks.tensors(
+                self.program), "tmp": self.trans_utils.count})
         return stmt
 
     def __trans_nodes(self, nodes: List[Node]) -> Tuple[int, Statement]:
@@ -115,6 +125,7 @@ class HiFiber:
         i = 0
         while i < len(nodes):
             node = nodes[i]
+            verif_n0 = len(code.stmts)
 
             if isinstance(node, EagerInputNode):
                 code.add(
@@ -148,6 +159,9 @@ class HiFiber:
                 expr = self.eqn.make_iter_expr(cast(str, rank), tensors)
                 _, tensors = self.graph.pop_concord()
                 payload = self.eqn.make_payload(cast(str, rank), tensors)
+                if verif_hooks.enabled():
+                    verif_hooks.emit({"ev": "LoopEnter", "node": verif_hooks.node(node), "popped": [t.root_name() for t in tensors], "tensors": verif_hooks.tensors(
+                        self.program), "tmp": self.trans_utils.count})
 
                 # Recurse for the for loop body
                 j, body = self.__trans_nodes(nodes[(i + 1):])
@@ -221,6 +235,9 @@ class HiFiber:
                     "Unknown node: " +
                     repr(node))  # pragma: no cover
 
+            if verif_hooks.enabled():
+                verif_hooks.emit({"ev": "Node", "node": verif_hooks.node(node), "stmts": [st.gen(0) for st in code.stmts[verif_n0:]], "tensors": verif_hooks.tensors(
+                    self.program), "tmp": self.trans_utils.count})
             i += 1
 
         return i, code
